@@ -27,4 +27,6 @@ def run(rep, fb, tier):
     _pr5.rule_py_numba_view_start(rep)
     _pr5.rule_py_numba_lowering(rep)
     _pr5.rule_py_self_attrs(rep)
+    __import__("vf.rules.pyrules3", fromlist=["x"]).rule_py_numba_partition_cursor(rep)
+    __import__("vf.rules.pyrules3", fromlist=["x"]).rule_py_numba_partition_start(rep)
     rep.units = fb.units + ["src/awkward/_connect/_numba/*.py, _libawkward.py (ast)"]
